@@ -198,6 +198,8 @@ def strategy(draw, tier="quick"):
     case = {"fmt": fmt, "nf": nf, "na": na, "cell": cell, "seed": draw(st.integers(0, 3)), "op": op}
     if fmt == "lammpstrj" and na >= 2 and draw(st.booleans()):
         case["rows"] = "shuffled"       # a dump as LAMMPS writes it without `dump_modify sort id`
+    if fmt in ("pdb", "pdb.gz") and na >= 3 and draw(st.integers(0, 4)) == 0:
+        case["cell"] = "tiny"          # density of the whole file 1000 / nm^3 < n / V: the CRYST1 record counts as a dummy
     if fmt == "trr" and draw(st.booleans()):
         case["trr_vf"] = draw(st.sampled_from(["v", "f", "vf"]))       # a TRR file as GROMACS writes it with nstvout / nstfout > 0
     if fmt in ("h5", "xtc", "trr", "dcd", "nc", "netcdf", "xyz", "mdcrd", "lammpstrj", "gro") and draw(st.integers(0, 11)) == 0:
